@@ -10,10 +10,12 @@ CONSTANTS
   UnicodeDigits = FALSE
   NoRollback = FALSE
   StaleKey = FALSE
+  CopySharesParts = FALSE
 SPECIFICATION LtsSpec
 INVARIANT KeyFresh
 INVARIANT ObjConsistent
 INVARIANT ImplRefines
 PROPERTY AssignOrRollback
+PROPERTY CopyIndependent
 VIEW ObjView
 CHECK_DEADLOCK FALSE
